@@ -174,15 +174,20 @@ tx_outs:\n{tx_outs}
     def parse(cls, s, network="mainnet"):
         """Parses a transaction from stream"""
         # we can determine whether something is segwit or legacy by looking
-        # at byte 5
+        # at bytes 5 and 6: the segwit marker and flag are 0x00 0x01
+        start = s.tell()
         s.read(4)
-        if s.read(1) == b"\x00":
-            parse_method = cls.parse_segwit
-        else:
-            parse_method = cls.parse_legacy
+        marker = s.read(2)
         # reset the seek to the beginning so everything can go through
-        s.seek(-5, 1)
-        return parse_method(s, network=network)
+        s.seek(start)
+        if marker == b"\x00\x01":
+            try:
+                return cls.parse_segwit(s, network=network)
+            except Exception:
+                # a legacy transaction without inputs and with one output
+                # starts with the same bytes
+                s.seek(start)
+        return cls.parse_legacy(s, network=network)
 
     @classmethod
     def parse_legacy(cls, s, network="mainnet"):
